@@ -96,7 +96,7 @@ def run(pid):
         module, inv_names, want = ("MCStore", "Refines / PredictedPositionsExact / FreedOnce", ("idxgc", "prigc")) if pid == "C04" else \
                                   ("MCStoreCrash", "Refines / ReopenPathsAgree / NoLiveFreed / PureAgrees", ("reopen",))
         for pl, il, mc in ([(33, 30, 6), (70, 70, 6)] if thorough else [(33, 30, 5)]):
-            consts = {"Vals": "{0, 5}", "PriLimit": pl, "IdxLimit": il, "MaxCalls": mc, "WithGC": "TRUE", "LowUses": "{0, 101}"}
+            consts = {"Vals": "{0, 5}", "PriLimit": pl, "IdxLimit": il, "MaxCalls": mc, "WithGC": "TRUE", "LowUses": "{0, 101}", "Deadlines": "{0, 1, 2}" if pid == "C04" else "{0}"}
             if pid == "C02":
                 consts.update({"CommitOrder": '"pif"', "Faults": '{"reopen"}'})
             r0 = vlib.tlc_must(module, module + "_mc.cfg", consts=consts, timeout=3000)
